@@ -232,3 +232,33 @@ P["C03"] = {
     "rule": "CKKS programs (negate, add, sub, multiply, square, multiply/add/sub_plain, relinearize, rescale) over a pool of ciphertexts, N = 4..16 (thorough 32), chains of 2..6 primes of 30..59 bits, scales 2^20..2^28 times plaintext scales 2^10..2^20, complex slot vectors incl. purely imaginary and negative values, sizes 2..4. Every step dumps operands and result: the driver recomputes the result ciphertext bit for bit with the Lean model (add/sub/negate/multiply/plain ops/rescale) and checks the exact relation between the big-integer phases (sum / difference / negacyclic product exactly mod Q; relinearize within the key-switch bound; rescale within the rounding bound) and the IEEE scale bit pattern; decoded slots are compared with the complex shadow program; level mismatch, scale mismatch and scale overflow must be refused (the overflow rule is compared with the model at the four boundary exponents).",
     "assumptions": ["Lean Float * and / are IEEE binary64 (same as Rust f64)", "the decoded-slot comparison uses the library decoder with tolerance max|v|/512 + 1/512 (a labelled test); the exact statement is the integer-level phase relation"],
 }
+
+P["C18"] = {
+    "lean_modules": ["Heathcliff.Props.C18"],
+    "level": "proof",
+    "runs": lambda tier, seed: [{"seed": seed}] if tier == "quick" else [{"seed": seed * 1000 + i} for i in range(8)],
+    "search": lambda tier, seed: [{"seed": seed * 7919 + i} for i in range(2)],
+    "rule": ("Whole-protocol worlds on hand-built contexts (security None; N = 8..32; 2..4 coefficient primes of 45..60 bits, the last one "
+             "special; t batching prime / 2^k / small odd) with 2..4 parties (thorough 2..6), BFV / BGV / CKKS, every random choice of the library replayed from the "
+             "entropy override: collective public key, secret-key revelation, two-round relinearisation key, key switch to fresh keys, collective decryption, "
+             "public-key switch to an outside receiver, ciphertext->shares and shares->ciphertext (batching plain moduli; BFV: both, BGV: the first - the second "
+             "refuses BGV), boundary plaintexts (0, all t-1, top-coefficient monomial, floor/ceil t/2 alternating, constant, random). Delivery: EVERY global order "
+             "of the n(n-1) messages of every round for n <= 3 (2 resp. 720 orders; quick: all of them for the first world of each scheme, every 11th for the "
+             "second), 30 (thorough 150) random global orders for n >= 4; each order re-runs the whole world and all API-visible outputs of all parties are "
+             "compared with the identity order; one dropped message per round (the receiver must refuse, everybody else finish). Case lines: mp_finish (own share, "
+             "messages in arrival order, result of finish: Lean model in that order vs. order-free integer sum; one line per distinct receiver/order), mp_share "
+             "(every round function on the party's secret, the common-tape polynomial and the noise recorded by the sample tape: Lean model with the library's "
+             "RNS/NTT arithmetic vs. the same formula over exact schoolbook arithmetic in Z_q[X]/(X^N+1)), mp_decode (summed phase -> plaintext: model of "
+             "decrypt_polynomial vs. exact-integer decoding), prog (ciphertexts with known plaintext - encryptions under the collective key, relinearised products "
+             "under the collective relinearisation key, key-switched, re-encrypted, shares->ciphertext results, and the collective decryption itself - decrypted "
+             "with exact integers under the summed / target key), dec (CKKS: exact phase under the summed key); verdict lines: agreement of all parties, order "
+             "independence, refusals, share sums, CKKS values (labelled empirical-test)."),
+    "assumptions": [
+        "the summed secret key is obtained through the library's own secret-key revelation protocol and cross-checked against the sum of Participant::secret_key() of all parties; it is dumped in coefficient form through the library's inverse NTT (checked by C09)",
+        "the ring-level theorems (Props/C18) are about the round functions instantiated with a commutative ring; the RNS/NTT instance the code runs is tied to them by the mp_share lines (model = code bit for bit; = exact schoolbook ring arithmetic) and by C09's theorem that the NTT is a ring isomorphism",
+        "smallness of the summed noise is used only through the conservative predicted budget that decides where exact decryption is claimed (noise_sum_bound gives n*B coefficientwise); smudging-noise security is out of scope",
+        "shares_to_cipher / cipher_to_shares are aggregator protocols: only party 0's result is claimed (theorem s2c_other_party_phase states what another party would compute)",
+        "CKKS plaintext values are compared through the library's decoder with a tolerance (labelled empirical-test); the integer-level CKKS checks (dec, mp_decode, mp_share, mp_finish) are exact",
+        "the entropy override and the sample tape are the existing verif hooks (rng_hooks); no new hook is needed for C18",
+    ],
+}
